@@ -25,7 +25,7 @@ def generate(rng, seed, index, tier):
     spec, x0, y0 = gen.gen_problem(rng, fam, mmax=4)
     if spec["m"] == 0 and rng.random() < 0.8:
         spec, x0, y0 = gen.gen_problem(rng, fam, mmax=4)
-    kw = gen.gen_params(rng, spec, x0, y0, p_knob=0.4, reporting=False)
+    kw = gen.gen_params(rng, spec, x0, y0, p_knob=0.4, reporting=False, numeric=0.2)
     kw["penalty_update"] = str(rng.choice(["Constant", "DualNorm", "DualEquilibration", "ParetoDecrease", "ObjectiveFilter", "LagrangianFilter"], p=[0.1, 0.4, 0.15, 0.15, 0.1, 0.1]))
     if rng.random() < 0.6:
         y0 = np.round(rng.normal(size=spec["m"]) * float(rng.choice([1.0, 50.0, 1e4])), 3)
@@ -33,7 +33,11 @@ def generate(rng, seed, index, tier):
         kw["rho"] = float(10.0 ** int(rng.integers(-13, 2)))
     kw["iteration_limit"] = int(rng.choice([10, 40, 150], p=[0.3, 0.5, 0.2]))
     kw = gen.quiet_params(kw)
-    return gen.base_world(seed, ID, index, spec, x0, y0, kw, case={"resolve": bool(rng.random() < 0.3), "faulted": bool(rng.random() < 0.25), "pts_seed": int(rng.integers(0, 2**31))})
+    obs = None
+    if rng.random() < 0.15:
+        # an observer that calls the solver's public single-step API from inside the callback
+        obs = {"level": "CRITICAL", "callbacks": ["reenter"]}
+    return gen.base_world(seed, ID, index, spec, x0, y0, kw, obs=obs, case={"resolve": bool(rng.random() < 0.3), "faulted": bool(rng.random() < 0.25), "pts_seed": int(rng.integers(0, 2**31))})
 
 
 def _nontrivial(ex, bump):
